@@ -6,6 +6,7 @@
 //       --clock system|tsc --cycles 1|2 --second none|finished|alive --handler 0|1
 //       --tpos P   the second thread logs T1,T2 after the main thread's statement number P (0 = before all of them, so the
 //                  second thread registers first; >= 1: the main thread registers first)
+//       --lim N    (0 = defaults) soft limit = hard limit = initial capacity of the backend's per-thread buffers
 //       --fpos P   (-1 = none) a flusher thread calls flush_log() after the main thread's statement number P (before the
 //                  second thread if P == tpos) and stays blocked in it for as long as the backend is held
 #include "quill/Backend.h"
@@ -95,6 +96,14 @@ int main(int argc, char** argv)
   BackendOptions bo;
   bo.error_notifier = [](std::string const& s) { fprintf(stderr, "notifier: %s\n", s.c_str()); };
   if (asleep) bo.sleep_duration = std::chrono::hours{1};
+  if (int const lim = atoi(arg(argc, argv, "--lim", "0")))
+  {
+    // tiny backend buffering limits: a read pass caches at most `lim` statements per queue, the drain has to go back to the
+    // queues between writes to keep the global order
+    bo.transit_events_soft_limit = static_cast<size_t>(lim);
+    bo.transit_events_hard_limit = static_cast<size_t>(lim);
+    bo.transit_event_buffer_initial_capacity = static_cast<size_t>(lim);
+  }
   if (clock == "tsc") bo.rdtsc_resync_interval = std::chrono::hours{2};
   if (handler)
     Backend::start<FrontendOptions>(bo, SignalHandlerOptions{});
